@@ -83,16 +83,16 @@ func (s Segment) followedBy(a, b string) bool {
 }
 
 type seqRule struct {
-	c        *Ctx
-	rule     string
-	classify func(fr *Frame, call *ast.CallExpr, c *Callee, args []Value) *callEvent
-	visit    func(fr *Frame, n ast.Node) string
-	condSym  func(fr *Frame, token, rel string) string
-	condExpr func(fr *Frame, e ast.Expr, branch bool, ip *Interp, st *State) string
-	noInline func(f *Func) bool
-	relevant func(f *Func) bool
-	cutLoops bool // (unused: every loop is cut into per-iteration segments)
-	maxDepth int
+	c          *Ctx
+	rule       string
+	classify   func(fr *Frame, call *ast.CallExpr, c *Callee, args []Value) *callEvent
+	visit      func(fr *Frame, n ast.Node) string
+	condSym    func(fr *Frame, token, rel string) string
+	condExpr   func(fr *Frame, e ast.Expr, branch bool, ip *Interp, st *State) string
+	noInline   func(f *Func) bool
+	relevant   func(f *Func) bool
+	cutLoops   bool // (unused: every loop is cut into per-iteration segments)
+	maxDepth   int
 	trackField string
 	trackAny   []string
 	loadSyms   bool
@@ -106,7 +106,12 @@ func (sr *seqRule) segments(root *Func) []Segment {
 	// state keys: "seq" symbols of the current straight-line piece; "stk"
 	// stack of enclosing loops "pos~prefix" joined by "|"; "T" tracked status
 	emit := func(kind, loop string, seqStr string, s kv, end string, ret []Value, exit bool, how string) {
-		syms := strings.Fields(strings.ReplaceAll(seqStr, ",", " "))
+		var syms []string
+		for _, x := range strings.Fields(strings.ReplaceAll(seqStr, ",", " ")) {
+			if !strings.HasPrefix(x, "__retry@") {
+				syms = append(syms, x)
+			}
+		}
 		key := kind + "|" + loop + "|" + strings.Join(syms, ",") + "|" + valsKey(ret) + "|" + s.get("T") + fmt.Sprint(exit) + how
 		if seen[key] {
 			return
@@ -143,6 +148,12 @@ func (sr *seqRule) segments(root *Func) []Segment {
 	tr.classify = sr.classify
 	tr.step = func(s kv, ev Ev) kv {
 		switch {
+		case strings.HasPrefix(ev.Name, "__retry@"):
+			cur := s.get("seq")
+			if i := strings.Index(cur, ev.Name); i >= 0 {
+				return s.set("seq", cur[:i+len(ev.Name)])
+			}
+			return app(s, ev.Name)
 		case strings.HasPrefix(ev.Name, "__iter@"):
 			pos := ev.Name[len("__iter@"):]
 			if tp, _, _ := top(s); tp == pos {
@@ -164,13 +175,45 @@ func (sr *seqRule) segments(root *Func) []Segment {
 		}
 		return app(s, ev.Name)
 	}
+	// a bare `for { ... }` is a retry loop (compare-and-swap idiom): it is not cut into iterations; the path
+	// keeps the symbols of its final iteration only (earlier, failed iterations are dropped at the loop head)
+	retryMemo := map[ast.Stmt]bool{}
+	isRetry := func(s ast.Stmt) bool {
+		if v, ok := retryMemo[s]; ok {
+			return v
+		}
+		fs, ok := s.(*ast.ForStmt)
+		res := false
+		if ok && fs.Cond == nil && fs.Init == nil && fs.Post == nil {
+			ast.Inspect(fs.Body, func(n ast.Node) bool {
+				if sel, ok := n.(*ast.SelectorExpr); ok && sel.Sel.Name == "CompareAndSwap" {
+					res = true
+				}
+				if _, ok := n.(*ast.FuncLit); ok {
+					return false
+				}
+				return true
+			})
+		}
+		retryMemo[s] = res
+		return res
+	}
 	tr.visit = func(fr *Frame, n ast.Node) string {
 		switch l := n.(type) {
 		case LoopIter:
+			if isRetry(l.Stmt) {
+				return "__retry@" + sr.c.P.pos(l.Stmt)
+			}
 			return "__iter@" + sr.c.P.pos(l.Stmt)
 		case LoopDone:
+			if isRetry(l.Stmt) {
+				return ""
+			}
 			return "__done@" + sr.c.P.pos(l.Stmt)
 		case LoopBreak:
+			if isRetry(l.Stmt) {
+				return ""
+			}
 			return "break"
 		}
 		if sr.visit != nil {
